@@ -43,6 +43,23 @@ Definition c12_ok (c : scase) : bool :=
   | None => match all_writes with [] => true | _ => false end
   end.
 
+(* K12e (found by an independent review of the specification): a scenario whose LAST attempt completed with a retry still
+   pending — a retried step failure (or a hook failure with retries left) and no later attempt: the run was cut, e.g. by
+   fail-fast — is counted in NONE of passed / skipped / failed, only as "retried". C12 says "each scenario whose last
+   attempt completed is counted once, in exactly one of passed / skipped / failed according to that last attempt".
+   `StatsSpec.classify` describes what the code does (CNone for such a scenario), so the monitor adds the clause here. *)
+Definition k12e (es : list ev) : bool :=
+  let evs := before_finished es in
+  existsb (fun p =>
+    let pe := filter (on_path p) evs in
+    match rev pe with
+    | l :: _ =>
+      let att := filter (fun e => retr_eqb (ev_retr e) (ev_retr l)) pe in
+      existsb is_sc_fin att
+      && (existsb is_step_failed_retried att || (existsb is_hook_failed att && retries_left (ev_retr l)))
+    | [] => false
+    end) (paths evs).
+
 Definition theorem_applies (c : scase) : bool :=
   let fs := sc_features c in
   let evs := before_finished (effective c) in
@@ -53,9 +70,12 @@ Definition theorem_applies (c : scase) : bool :=
 
 Definition verdict (id : N) (c : scase) : list (list N) :=
   let fs := sc_features c in
-  let known := k12_class (last_own_of fs) (steps_of_fs fs) (effective c) in
+  let k := k12_class (last_own_of fs) (steps_of_fs fs) (effective c) in
+  let complete := existsb is_finished (effective c) in
+  let e := complete && k12e (effective c) in
+  let known := if k =? 0 then (if e then 5 else 0) else k in
   if contract_prefix (map snd (sc_events c)) && retry_consistent (effective c) then
-    [vrow id 1 (judge (c12_ok c) (same_as_model c) known);
+    [vrow id 1 (judge (c12_ok c && negb e) (same_as_model c) known);
      (* informational row (sub-check 90, never a failure): do the hypotheses of the scenario-counter theorem
         (Props/C12.v: C12_scenario_counters) hold of this stream? *)
      [id; 90; 0; if theorem_applies c then 1 else 0]]
